@@ -622,6 +622,17 @@ func (se *SpecEnv) callSpec(c *ast.CallExpr) Value {
 					return x.Cap
 				case *IteV:
 					return F.Ite(x.C, lenOf(x.A), lenOf(x.B))
+				case *PtrV:
+					// the address of a slice-typed cell (a field of a conditional pointer): the slice it holds; the
+					// alternative behind a nil pointer is irrelevant (the clause guards it)
+					if x.Obj == nil {
+						return F.I64(0)
+					}
+					if d := se.deref(x); d != nil {
+						if _, again := d.(*PtrV); !again {
+							return lenOf(d)
+						}
+					}
 				}
 				unsup("spec len of %T", v)
 				return nil
